@@ -291,3 +291,9 @@ def describe(tier):
         exhaustive=True,
         assumptions=["shape predicate mc/checks/c14.py:wellformed transcribes the property text; 'doc' may be None at the top level as the declared type says Optional[str]"],
     )
+
+
+def standalone(case):
+    if case.get("kind") != "doc_string":
+        return None
+    return "import cdd.docstring.parse\nir = cdd.docstring.parse.docstring({s!r})\nprint(ir)  # inspect names / typ / doc against the shape the property describes\n".format(s=case["string"])
